@@ -150,10 +150,6 @@ class Raw:
     def __init__(self):
         self.gmod, self.gbmod, _, _ = _mods()
 
-    @staticmethod
-    def of(obj):
-        return obj
-
     def strip(self, o):
         gm, gb = self.gmod, self.gbmod
         if isinstance(o, gm.Geometry):
@@ -730,7 +726,6 @@ def check_conv_eq(C: Ctx):
                     other = gbox_in(eo[2])
                 is_bbox = ok == "bbox"
                 line = f"c01 conv {name} {bool_s(is_bbox)} {C.pool.rec(es[2])} {C.pool.rec(eo[2])}"
-                model = run_driver("C01", [line])[0] if False else None
                 info: Dict[str, Any] = {}
 
                 def f():
@@ -778,8 +773,17 @@ def check_conv_eq(C: Ctx):
                                     path = "converted" if want == canon(v) else "?converted-differs"
                                 except Exception:  # pylint: disable=broad-except
                                     path = "?conversion-failed"
+                            elif name == "GeoboxTiles.grid_intersect":
+                                # goes through both footprints in EPSG:4326; only the verdict is compared
+                                path = "converted"
                             else:
-                                path = "converted" if not (cands and cands[0][1] == canon(v)) else "?not-converted"
+                                try:
+                                    with warnings.catch_warnings():
+                                        warnings.simplefilter("ignore")
+                                        want = canon(fn(gbox, other.extent.to_crs(es[2])))
+                                    path = "converted" if want == canon(v) else "?converted-differs"
+                                except Exception:  # pylint: disable=broad-except
+                                    path = "?conversion-failed"
                     return f"OK path={path} tag={tag_of(v)}"
 
                 out = R.corr(line, f, sig=f"conv|{name}|" + (
@@ -913,7 +917,6 @@ def replay(R: Run, rec) -> int:
             "mixed-crs-accepted", "equal-crs-rejected", "result-differs-from-raw", "result-crs-tag"):
         print("nothing replayable on the real code for this record (model/proof side)")
         return 1 if rec.get("kind") == "no-failing-input-found" else 0
-    byl = {e[0]: e for e in Pool(True).entries}
     C.pool = Pool(True)
     byl = {e[0]: e for e in C.pool.entries}
     ents = [byl[l] for l in labels]
